@@ -46,7 +46,9 @@ InR == Rs \cup {None, "ZZ"}
 
 (* the laws hold under every subset of the optional fallbacks (proved for all  *)
 (* of them with TLAPS, LikelyProofs.tla); TLC checks a spread of six          *)
-LawCfgs == {FbNone, FbAll, {"uscript", "uregion", "bare"}, {"bare"}, {"uscript"}, {"bareAny", "ulangregion"}}
+LawCfgs == IF Universe = "1x2x1"
+           THEN {FbNone, FbAll, {"uscript", "uregion", "bare"}, {"bare"}, {"uscript"}, {"bareAny", "ulangregion"}}
+           ELSE {FbNone, FbAll, {"uscript", "uregion", "bare"}}      \* the larger universes: half a million tables each
 C07 == ph = 1 => \A l \in InL, s \in InS, r \in InR, fb \in LawCfgs : LawsMax(T, l, s, r, fb)
 C08 == ph = 1 => \A l \in InL, s \in InS, r \in InR, fb \in LawCfgs : LawsMin(T, l, s, r, fb)
 (* (with the optional bare-"und" fallback an implementation could lengthen  *)
